@@ -42,7 +42,8 @@ PROP = {
              "which side is below dust, zero fee, script lengths); unit rbf: case = E1 schedule then one RBF-coop close dialogue "
              "of the two state machines, non-trivial = dialogues yielding at least one transaction, distinct = (channel type, "
              "closer is opener, offer number of that closer, closer/closee output below dust, early offer seen, link mode, closer names a new script, closee has changed its script)"),
-    "assumptions": ["MockSigner; musig2 nonces generated as peer.MusigChanCloser does"],
+    "assumptions": ["MockSigner; musig2 nonces generated as peer.MusigChanCloser does",
+                    "both parties of the RBF unit are lnd state machines: closing_complete always carries the lock time lnd chooses (0); a foreign closer proposing a non-zero lock time is not generated (seed C17j is missed for that reason)"],
     "units": [{
         "name": "closetx", "pkg": "lnwallet", "test": "TestVerifC17",
         "files": _E1 + ["lnwallet/c01_test.go", "lnwallet/c17_test.go"],
